@@ -1,0 +1,59 @@
+//go:build verif
+
+package db
+
+// Contracts for property C13 (revocation): the per-document decision of the revocation feed.
+// Comment-only; read by /verif/engine. Trusted dispatch contract: /verif/trusted/c13_auth.spec.
+
+//@ props C13
+
+// the document-history entry concerns the channel (every entry does for the all-channels wildcard)
+//@ pred docIn(e ChannelSetEntry, chanName string) bool
+//@   is chanName == channels.UserStarChannel || e.Name == chanName
+
+// The document was in the channel (entry e, End == 0 meaning "still in") during a part of the access period p,
+// and p ended after the sequence the client has already been told about.
+//@ pred overlaps(e ChannelSetEntry, p auth.GrantHistorySequencePair, since uint64) bool
+//@   is p.EndSeq > since && max(e.Start, p.StartSeq) < min(ite(e.End != 0, e.End, math.MaxUint64), p.EndSeq)
+
+// no access period makes entry e a reason to revoke
+//@ pred noHit(e ChannelSetEntry, chanName string, ps []auth.GrantHistorySequencePair, since uint64) bool
+//@   is docIn(e, chanName) ==> (forall k int :: {ps[k]} 0 <= k && k < len(ps) ==> !overlaps(e, ps[k], since))
+
+// wasDocInChannelPriorToRevocation: a document whose latest change is after `since` needs a revocation message for
+// the channel exactly if some period in which the document was in the channel (current channel set or channel
+// history of the document) intersects a period in which the user could see the channel that ended after `since`.
+// The periods are those CollectionChannelGrantedPeriods returns (callres).
+//@ func DatabaseCollectionWithUser.wasDocInChannelPriorToRevocation
+//@   safety on
+//@   requires col != nil && col.DatabaseCollection != nil && usrKnownDB(col.user)
+//@   modifies unbox(col.user, *auth.userImpl).roles, unbox(col.user, *auth.userImpl).deletedRoles, elems(syncData.ChannelSet)
+//@   ensures[err]   !isNilErr(callres(CollectionChannelGrantedPeriods, 1, 1)) ==> !result0 && result1 == callres(CollectionChannelGrantedPeriods, 1, 1)
+//@   ensures[ok]    isNilErr(callres(CollectionChannelGrantedPeriods, 1, 1)) ==> isNilErr(result1)
+//@   ensures[no]    isNilErr(result1) && !result0 ==> (forall i int :: {old(syncData.ChannelSet[i])} 0 <= i && i < len(syncData.ChannelSet) ==> noHit(old(syncData.ChannelSet[i]), chanName, callres(CollectionChannelGrantedPeriods, 1, 0), since))
+//@   ensures[no-history] isNilErr(result1) && !result0 ==> (forall i int :: {old(syncData.ChannelSetHistory[i])} 0 <= i && i < len(syncData.ChannelSetHistory) ==> noHit(old(syncData.ChannelSetHistory[i]), chanName, callres(CollectionChannelGrantedPeriods, 1, 0), since))
+//@   ensures[yes]   result0 ==> (exists k int :: {callres(CollectionChannelGrantedPeriods, 1, 0)[k]} 0 <= k && k < len(callres(CollectionChannelGrantedPeriods, 1, 0)) && ((exists i int :: {old(syncData.ChannelSet[i])} 0 <= i && i < len(syncData.ChannelSet) && docIn(old(syncData.ChannelSet[i]), chanName) && overlaps(old(syncData.ChannelSet[i]), callres(CollectionChannelGrantedPeriods, 1, 0)[k], since)) || (exists i int :: {old(syncData.ChannelSetHistory[i])} 0 <= i && i < len(syncData.ChannelSetHistory) && docIn(old(syncData.ChannelSetHistory[i]), chanName) && overlaps(old(syncData.ChannelSetHistory[i]), callres(CollectionChannelGrantedPeriods, 1, 0)[k], since))))
+//@   loop 1 invariant[cs]   forall i int :: {old(syncData.ChannelSet[i])} 0 <= i && i <= #index && i < len(syncData.ChannelSet) ==> noHit(old(syncData.ChannelSet[i]), chanName, channelAccessPeriods, since)
+//@   loop 1 invariant[csh]  forall i int :: {old(syncData.ChannelSetHistory[i])} 0 <= i && i + len(syncData.ChannelSet) <= #index && i < len(syncData.ChannelSetHistory) ==> noHit(old(syncData.ChannelSetHistory[i]), chanName, channelAccessPeriods, since)
+//@   loop 2 invariant[cs]   forall i int :: {old(syncData.ChannelSet[i])} 0 <= i && i <= #index1 && i < len(syncData.ChannelSet) ==> noHit(old(syncData.ChannelSet[i]), chanName, channelAccessPeriods, since)
+//@   loop 2 invariant[csh]  forall i int :: {old(syncData.ChannelSetHistory[i])} 0 <= i && i + len(syncData.ChannelSet) <= #index1 && i < len(syncData.ChannelSetHistory) ==> noHit(old(syncData.ChannelSetHistory[i]), chanName, channelAccessPeriods, since)
+//@   loop 2 invariant[which] 0 <= #index1 + 1 && #index1 + 1 < len(syncData.ChannelSet) + len(syncData.ChannelSetHistory) && (#index1 + 1 < len(syncData.ChannelSet) ==> docHistoryEntry == old(syncData.ChannelSet[#index1 + 1])) && (#index1 + 1 >= len(syncData.ChannelSet) ==> docHistoryEntry == old(syncData.ChannelSetHistory[#index1 + 1 - len(syncData.ChannelSet)]))
+//@   loop 2 invariant[cur]  docIn(docHistoryEntry, chanName) && #index < len(channelAccessPeriods) && (forall k int :: {channelAccessPeriods[k]} 0 <= k && k <= #index ==> !overlaps(docHistoryEntry, channelAccessPeriods[k], since))
+
+// an auth.User value that holds a (non-nil) *userImpl: what Authenticator.GetUser / NewUser hand out
+//@ pred usrKnownDB(u auth.User) bool
+//@   is dynType(u) == typeTag(*auth.userImpl) && unbox(u, *auth.userImpl) != nil
+
+// ---- the change entry sent for a revocation ----
+
+// makeChangeEntry: the entry carries the sequence it was built for and the document id of the log entry; it is not
+// marked as a revocation.
+//@ func makeChangeEntry
+//@   requires logEntry != nil
+//@   ensures[ids] result.Seq == seqID && result.ID == logEntry.DocID && !result.Revoked
+
+// makeRevocationChangeEntry ("announced as ... revoked"): the entry for a revoked document is flagged Revoked and
+// carries the compound sequence (document sequence, triggered by the revocation sequence) it was built for.
+//@ func makeRevocationChangeEntry
+//@   requires logEntry != nil
+//@   ensures[revoked] result.Revoked && result.Seq == seqID && result.ID == logEntry.DocID
